@@ -1,11 +1,13 @@
+\* The earlier, full-size configuration: 6,364,063 distinct states, 10 min 24 s with 4 workers and -coverage 1
+\* (passed, 2026-09-30).  Too large for the check; props/ext_mqueue.py runs the MQueueImplMC*.cfg slices instead.
 SPECIFICATION ISpec
 CONSTANTS
   P = 2
   C = 2
-  L = 0
+  L = 1
   MaxProd = 3
-  NB = 0
-  MaxTog = 0
+  NB = 1
+  MaxTog = 2
   MaxFail = 0
   Variant = "ok"
   Mode = "free"
